@@ -38,6 +38,9 @@ def rows(s):
 
 def parse_sync(out):
     t = out.split()
+    if t and t[0] == "rsync" and len(t) == 6:
+        # through the real synchronise_day: no reject lists, no stage of the error
+        t = ["sync", t[1] if t[1] == "res=ok" else "res=abandoned", "nrej=", "erej="] + t[2:]
     if len(t) != 8 or t[0] != "sync": return None
     d = dict(x.split("=", 1) for x in t[1:])
     try:
@@ -136,7 +139,9 @@ class C02(Cfg):
                   "Not covered: batching over several network chunks, full-text index, daily-log marks (C09).")
     trusted_base = [
         "hand-written model lean/DiscretModel/Model/Ingest.lean (+ Model/Room.lean, Model/RoomNode.lean for the room set-up), tied by the correspondence run (dv-ingest vs dmodel_ingest)",
-        "harness/ingest: builds and signs rows with harness-held Ed25519 keys, calls the real services in the order of synchronise_day",
+        "harness/ingest: builds and signs rows with harness-held Ed25519 keys; two thirds of the days call the real services "
+        "(SignatureVerificationService, filter_existing_node, add_nodes, add_edges, delete_nodes, delete_edges) in the order of synchronise_day, "
+        "one third run the real LocalPeerService::synchronise_day (hook verif_synchronise_day) with the harness answering its queries as the remote peer",
         "idealised signatures in the model: `sigOk` is the verdict of the real verify(); an unforgeable signature is assumed, not proved",
     ]
     assumptions = [
@@ -164,14 +169,14 @@ class C02(Cfg):
     def nontrivial(self, ops, outs):
         prev = None
         for o in outs:
-            if o.startswith("sync res=ok"):
+            if o.startswith("sync res=ok") or o.startswith("rsync res=ok"):
                 p = parse_sync(o)
                 if p and prev is not None and (p["N"], p["E"], p["ND"], p["ED"]) != prev: return True
                 if p: prev = (p["N"], p["E"], p["ND"], p["ED"])
             elif o.startswith("sync "):
                 p = parse_sync(o)
                 if p: prev = (p["N"], p["E"], p["ND"], p["ED"])
-        return any(o.startswith("sync res=ok") for o in outs)
+        return any(o.startswith("sync res=ok") or o.startswith("rsync res=ok") for o in outs)
 
     def oracle(self, ops, outs):
         """Verdict per stored / removed thing from the event list only (not Room::can, not the model).
@@ -188,7 +193,9 @@ class C02(Cfg):
 
         for op, out in zip(ops[1:], outs[1:]):
             k, a = kv(op)
-            if out == "bad-op" or out.startswith("err:") and k != "install":
+            if out == "bad-op":
+                break      # an op file that is not well-formed (e.g. over-shrunk): nothing to judge from here on
+            if out.startswith("err:") and k != "install":
                 fail("malformed", "%s -> %s" % (op, out)); break
             g = lambda x: int(a[x])
             if k == "room":
@@ -226,7 +233,7 @@ class C02(Cfg):
             elif k in pend:
                 if out != "q": fail("malformed", "%s -> %s" % (op, out)); break
                 pend[k].append(a)
-            elif k == "sync":
+            elif k in ("sync", "rsync"):
                 p = parse_sync(out)
                 if p is None: fail("malformed", out[:200]); break
                 room = g("r")
@@ -241,12 +248,13 @@ class C02(Cfg):
     def _judge(self, fail, live, room, pend, cur, p):
         can = lambda r, k, e, d, rt: (r in live) and live[r].can(k, e, d, rt)
         res = p["res"]
-        if not (res == "ok" or res == "unknownroom" or res.startswith("sig@")):
+        if not (res in ("ok", "unknownroom", "abandoned") or res.startswith("sig@")):
             fail("malformed", "sync result %s" % res); return
         before_n = {r[0]: r for r in cur["N"]}
         after_n = {r[0]: r for r in p["N"]}
         if len(after_n) != len(p["N"]): fail("duplicate-row-id", "two rows share an id after the batch")
         order = ["edel", "ndel", "nodes", "edges"]
+        # `abandoned` (real synchronise_day returned Err): the stage is unknown, every difference is judged
         stopped = order.index(res[4:]) if res.startswith("sig@") else (3 if res == "unknownroom" else 4)
 
         def first_ok(cands, judge):
@@ -400,7 +408,7 @@ class C02(Cfg):
             first_ok(m, lambda a: judge_edge(a, e))
 
         # ---- an abandoned day leaves the later stages without effect
-        if res != "ok":
+        if res not in ("ok", "abandoned"):
             if stopped <= 0 and (p["E"], p["ED"]) != (cur["E"], cur["ED"]): fail("trace-after-error", "edge tables changed although the day was abandoned")
             if stopped <= 1 and (p["ND"] != cur["ND"]): fail("trace-after-error", "node log changed although the day was abandoned")
 
